@@ -117,12 +117,17 @@ impl TryFrom<apollo_parser::cst::InterfaceTypeExtension> for InterfaceTypeDef {
                 .transpose()?
                 .unwrap_or_default(),
             extend: true,
+            // `extend type T @directive` and `extend type T implements I` have no fields
             fields_def: interface_def
                 .fields_definition()
-                .expect("object type definition must have fields definition")
-                .field_definitions()
-                .map(FieldDef::try_from)
-                .collect::<Result<Vec<_>, _>>()?,
+                .map(|fields| {
+                    fields
+                        .field_definitions()
+                        .map(FieldDef::try_from)
+                        .collect::<Result<Vec<_>, _>>()
+                })
+                .transpose()?
+                .unwrap_or_default(),
             interfaces: interface_def
                 .implements_interfaces()
                 .map(|itfs| {
